@@ -83,18 +83,20 @@ def lookup(lines, host, addr, port):
     return r
 
 
-def accept(lines, port, cred, plain_only_excluded=False):
+def accept(lines, port, cred, plain_only_excluded=False, cb=(False, False)):
+    """cb = (application callback accepts unlisted host keys, ... unlisted CA keys): the callbacks are part
+    of the client's trust configuration, but a @revoked entry always wins"""
     r = lookup(lines, HOST, ADDR, port)
     kind = cred[0]
     if kind == 'key':
-        return cred[1] in r[''] and cred[1] not in r['@revoked']
+        return (cred[1] in r[''] or cb[0]) and cred[1] not in r['@revoked']
     # ('cert', subject, ca, ctype, after, before, principals, tampered)
     _, subj, ca, ctype, after, before, principals, tampered = cred
-    if not plain_only_excluded and subj in r[''] and subj not in r['@revoked']:
+    if not plain_only_excluded and (subj in r[''] or cb[0]) and subj not in r['@revoked']:
         return True         # a server holding (key, certificate) may prove the plain key instead
     if tampered:
         return False
-    if ca not in r['@cert-authority'] or ca in r['@revoked']:
+    if not (ca in r['@cert-authority'] or cb[1]) or ca in r['@revoked']:
         return False
     if ctype != 'host':
         return False
@@ -158,11 +160,20 @@ def text_of(lines):
     return ''.join('%s%s %s\n' % (m + ' ' if m else '', p, pub_line(k)) for m, p, k in lines)
 
 
-def connect_once(lines, port, cred, seed=0, kh=None, host=HOST, addr=ADDR):
+def connect_once(lines, port, cred, seed=0, kh=None, host=HOST, addr=ADDR, cb=None):
     """returns observation dict"""
     loop = P.fresh(seed)
     P.install_wire_labels()
     try:
+        extra = {}
+        if cb is not None:
+            class CbClient(P.RecClient):
+                def validate_host_public_key(self, host, addr, port, key):
+                    return cb[0]
+
+                def validate_host_ca_key(self, host, addr, port, key):
+                    return cb[1]
+            extra['client_factory'] = CbClient
         text = kh if kh is not None else text_of(lines).encode()
         if cred[0] == 'key':
             hk = [K(cred[1])]
@@ -172,7 +183,7 @@ def connect_once(lines, port, cred, seed=0, kh=None, host=HOST, addr=ADDR):
                 return connect_lying(lines, port, 'tampered-cert', cred, loop)
             hk = [(K(cred[1]), cert)]
         pair = P.Pair(loop, sopts=dict(server_host_keys=hk),
-                      copts=dict(known_hosts=text, host=host, port=port),
+                      copts=dict(known_hosts=text, host=host, port=port, **extra),
                       caddr=('10.0.0.9', 40001), saddr=(addr, port))
         loop.flush_all()
         w = pair.copt.waiter
@@ -248,12 +259,12 @@ def _raw_private(key):
                             serialization.NoEncryption())
 
 
-def judge(lines, port, cred, obs, expect=None):
+def judge(lines, port, cred, obs, expect=None, cb=(False, False)):
     v = []
-    exp = accept(lines, port, cred) if expect is None else expect
+    exp = accept(lines, port, cred, cb=cb) if expect is None else expect
     if obs['loop_exc']:
         v.append(('loop-exception', obs['loop_exc'][0]))
-    if exp and not obs['connected'] and cred[0] == 'key' and port == 22:
+    if exp and not obs['connected'] and cred[0] == 'key' and port == 22 and not any(cb):
         # (sanity only; C04 itself does not demand that a trusted server is accepted)
         v.append(('trusted-server-rejected', 'predicate accepts, connect failed with %s' % obs['exc']))
     if not exp:
@@ -288,6 +299,33 @@ def worker(job):
                                                       '+'.join('%s%s' % (m, '') for m, _, _ in lines) or 'plain'),
                                   '%s ; known_hosts=%r port=%d cred=%r' % (det, text_of(lines)[:300], port, cred),
                                   {'kind': 'real', 'lines': [list(l) for l in lines], 'port': port, 'cred': list(cred)})
+    return acc
+
+
+def callback_worker(job):
+    """clients whose application callbacks (validate_host_public_key / validate_host_ca_key) accept
+    keys that known_hosts does not list: a listed-or-accepted key is usable, a @revoked one never is"""
+    acc = core.Acc()
+    creds = credentials()
+    cs = [creds[0], creds[1], creds[2], creds[3], creds[10], creds[11], creds[13]]
+    for lines in job:
+        for cb in ((True, False), (False, True), (True, True)):
+            for cred in cs:
+                try:
+                    obs = connect_once(lines, 22, cred, cb=cb)
+                    viol = judge(lines, 22, cred, obs, cb=cb)
+                    out = (obs['connected'], obs['exc'])
+                except Livelock as exc:
+                    viol, out = [('livelock', str(exc))], 'livelock'
+                acc.add(core.digest(('cb', lines, cb, cred, out)), transitions=1,
+                        sample={'known_hosts': text_of(lines)[:160], 'callbacks_accept(key,ca)': list(cb), 'credential': cred[:4],
+                                'connected': out[0]} if lines and lines[0][0] == '@revoked' and cb[0] and cred[0] == 'key' and out != 'livelock' else None)
+                acc.count('cb-accepted' if out != 'livelock' and out[0] else 'cb-rejected')
+                for k, det in viol:
+                    acc.violation('trust:%s:callback:%s:%s' % (k, cred[0] + ('/' + cred[3] if cred[0] == 'cert' else ''),
+                                                               '+'.join(m for m, _, _ in lines) or 'plain'),
+                                  '%s ; known_hosts=%r callbacks accept (key, ca)=%r cred=%r' % (det, text_of(lines)[:300], cb, cred),
+                                  {'kind': 'cb', 'lines': [list(l) for l in lines], 'cb': list(cb), 'cred': list(cred)})
     return acc
 
 
@@ -370,11 +408,17 @@ def main(tier, seed):
     sp = [HOST, ADDR, '10.0.0.6', 'other.example', '*']
     sfiles = [(('', p1, k1), ('', p2, k2)) for p1 in sp for k1 in ('k1', 'k2') for p2 in sp for k2 in ('k1', 'k2')]
     acc.merge(core.pmap(shared_worker, [sfiles[i::32] for i in range(32)]))
+    cp = [HOST, '*', 'other.example']
+    cone = [()] + [((m, p, k),) for m in MARKERS for p in cp for k in KEYS]
+    ctwo = [(a[0], (m, p, k)) for a in cone[1:] for m in MARKERS[1:] for p in (cp if tier == 'thorough' else cp[:2]) for k in KEYS]
+    cfiles = cone + ctwo
+    acc.merge(core.pmap(callback_worker, [cfiles[i::32] for i in range(32)]))
     rule = ('known_hosts files of 1 line (15 pattern forms x 3 markers x 4 keys) for ports 22 and 2222 and '
             'of 2 lines (second line over a reduced pattern set in quick) x server credential (2 plain keys, '
             '12 host/user certificates: validity windows at the exact boundaries of the virtual clock, '
             'principal sets, wrong type, other CA, altered body) through a real handshake; independent '
-            'predicate decides; lying servers via refpeer')
+            'predicate decides; lying servers via refpeer; %d files of 0-2 lines x application callbacks accepting '
+            'unlisted host keys / CA keys / both x 7 credentials' % len(cfiles))
     return core.finish(PROP, tier, seed, 'model_checking', acc, t0, rule,
                        {'one_line_files': len(one), 'two_line_files': len(two), 'credentials': len(creds)},
                        assumptions=['the predicate encodes the property wording (listed non-revoked key, or host '
@@ -392,7 +436,11 @@ def replay(rep):
         print(json.dumps(acc.violations[:3], indent=1, default=repr))
         return 1 if acc.violations else 0
     cred = None if 'cred' not in r else r['cred']
-    if r['kind'] == 'lying':
+    if r['kind'] == 'cb':
+        cred = tuple(tuple(x) if isinstance(x, list) else x for x in cred)
+        obs = connect_once(lines, 22, cred, cb=tuple(r['cb']))
+        v = judge(lines, 22, cred, obs, cb=tuple(r['cb']))
+    elif r['kind'] == 'lying':
         obs = connect_lying(lines, 22, r['how'], cred)
         v = judge(lines, 22, cred, obs, expect=False)
     else:
